@@ -532,3 +532,9 @@ CHECKS["C05"]["text"] += (
     "abscissa scaling with wr^3); every lattice case compares a global with "
     "a per-event temperature; the recorded laws run at channel widths 20, "
     "30 and 40 um and include the pixelation correction.")
+CHECKS["C01"]["text"] += (
+    " Code -> spec: long random writer sessions (several writer instances, "
+    "all modes, every feature kind, logs of every line class, two chunk "
+    "configurations) are recorded with the decoded file content at every "
+    "close and judged by TLC against WriterTrace (binding self-test: a "
+    "dropped event must be rejected).")
